@@ -164,7 +164,7 @@ impl Property for C20 {
         false
     }
     fn rule(&self, _tier: Tier) -> String {
-        "Library: strides of M1/M3/M4/M5/M6 x configuration slice (seeds 0, 1, 42; restarts and deletion forced) x {default brancher, random selectors, input order} x {complete iteration, satisfy, optimise} with a full / hinted DRCP proof, each executed twice in this process; compared: the sequence of solutions, the end result, the tap counters (conflicts, restarts, deletions, learned, id reuse), the bytes of the .drcp and of the .lits file. Command line: CNF, WCNF and FlatZinc inputs (strides of the C14/C15/C13 input sets) x seeds {1, 42} with -s (and --proof-path / --proof-type full for CNF and FlatZinc), each executed in two fresh processes; compared: stdout byte for byte (after dropping the statistic whose value is wall-clock time) and the proof files. A case = one (input, options, seed); non-trivial = the run made at least one decision or produced at least one solution. Exhaustive over the enumerated inputs/options; the hidden hash keys themselves are not enumerable (two independent draws per case).".into()
+        "Library: strides of M1/M3/M4/M5/M6 x configuration slice (seeds 0, 1, 42; restarts and deletion forced) x {default brancher, random selectors, input order} x {complete iteration, satisfy, optimise} with a full / hinted DRCP proof, each executed twice in this process; compared: the sequence of solutions, the end result, the tap counters (conflicts, restarts, deletions, learned, id reuse), the bytes of the .drcp and of the .lits file. Command line: CNF, WCNF and FlatZinc inputs (strides of the C14/C15/C13 input sets, every C13 input with sets, and three larger models with sparse sets of 4-6 values under {default, -a, -f -a}) x seeds {1, 42} with -s (and --proof-path / --proof-type full for CNF and FlatZinc), each executed in two fresh processes; compared: stdout byte for byte (after dropping the statistic whose value is wall-clock time) and the proof files. A case = one (input, options, seed); non-trivial = the run made at least one decision or produced at least one solution. Exhaustive over the enumerated inputs/options; the hidden hash keys themselves are not enumerable (two independent draws per case).".into()
     }
     fn assumptions(&self) -> Vec<String> {
         vec![
@@ -232,8 +232,25 @@ impl Property for C20 {
         for w in c15::instances(Tier::Quick).into_iter().step_by(29 * s) {
             inputs.push(("wcnf".into(), w.text(), vec![]));
         }
-        for c in c13::cases(Tier::Quick).into_iter().step_by(5 * s) {
-            inputs.push(("fzn".into(), c.f.text(), c.flags.iter().map(|x| x.to_string()).collect()));
+        for (i, c) in c13::cases(Tier::Quick).into_iter().enumerate() {
+            let text = c.f.text();
+            // every case with sets (hashed containers in the compiler) and a stride of the others
+            let sets = text.contains("set_in") || text.contains("{");
+            if i % (5 * s) == 0 || (sets && i % (if tier.quick() { 3 } else { 1 }) == 0) {
+                inputs.push(("fzn".into(), text, c.flags.iter().map(|x| x.to_string()).collect()));
+            }
+        }
+        // larger sparse sets and several reified set constraints: the order in which auxiliary
+        // literals are created shows in the search
+        let big = [
+            "var 0..10: x :: output_var;\nvar 0..10: y :: output_var;\nvar bool: b :: output_var;\nvar bool: c :: output_var;\nconstraint set_in_reif(x, {1,3,5,7,9}, b);\nconstraint set_in_reif(y, {0,2,4,6,8,10}, c);\nconstraint int_lin_le([1,1],[x,y],12);\nconstraint bool_clause([b,c],[]);\nsolve satisfy;\n",
+            "var 0..10: x :: output_var;\nvar {1,2,4,7,8}: y :: output_var;\nvar bool: b :: output_var;\nconstraint set_in_reif(x, {2,3,5,8}, b);\nconstraint set_in(x, {0,2,3,4,5,8,9});\nconstraint int_ne(x, y);\nconstraint int_lin_le([1,-1],[x,y],3);\nsolve maximize x;\n",
+            "var -4..6: x :: output_var;\nvar -4..6: y :: output_var;\nvar -4..6: z :: output_var;\nvar bool: b :: output_var;\nvar bool: c :: output_var;\nconstraint set_in_reif(x, {-3,-1,2,6}, b);\nconstraint set_in_reif(z, {-4,0,1,5}, c);\nconstraint pumpkin_all_different([x,y,z]);\nconstraint int_lin_eq([1,1,1],[x,y,z],3);\nconstraint bool_not(b,c);\nsolve satisfy;\n",
+        ];
+        for text in big {
+            for flags in [vec![], vec!["-a"], vec!["-f", "-a"]] {
+                inputs.push(("fzn".into(), text.to_string(), flags.iter().map(|x| x.to_string()).collect()));
+            }
         }
         for (ext, text, flags) in &inputs {
             for seed in ["1", "42"] {
